@@ -145,6 +145,7 @@ func runC20(c *Ctx) {
 	c20L4(c, li)
 	c20L5(c, li)
 	c20L6(c, li)
+	wsContract(c, "C20.L8")
 	// no reflection / unsafe in module packages (VTA soundness assumption)
 	for _, pk := range p.Pkgs {
 		if strings.Contains(pk.PkgPath, "/tests") || strings.Contains(pk.PkgPath, "/cli") {
@@ -645,4 +646,50 @@ func c20L6(c *Ctx, li *LockInfo) {
 	}
 	c.check(nOps >= 60, "C20.L6", "lock-operations-paired", token.NoPos, fmt.Sprintf("%d lock/unlock operations; every unlock releases a possibly-held lock and no return leaks a lock", nOps), fmt.Sprintf("only %d lock operations found", nOps))
 	_ = p
+}
+
+// wsContract: the WebSocket library allows one concurrent reader and one
+// concurrent writer; only Close and WriteControl may be called concurrently with
+// everything else. The stream adapter keeps that contract by construction:
+// data frames are written only by the write side of the adapter (Write /
+// ReadFrom) and read only by its read side (Read / WriteTo). A data write from
+// Close, a deadline setter or any other function races with the copy loop.
+func wsContract(c *Ctx, rule string) {
+	p := c.P
+	c.floor(rule, 2)
+	const gor = "(*github.com/gorilla/websocket.Conn)."
+	writeSide := map[string]bool{"Write": true, "ReadFrom": true}
+	readSide := map[string]bool{"Read": true, "WriteTo": true}
+	dataWrite := map[string]bool{"WriteMessage": true, "NextWriter": true, "WriteJSON": true, "WritePreparedMessage": true}
+	dataRead := map[string]bool{"NextReader": true, "ReadMessage": true, "ReadJSON": true}
+	for _, fn := range p.ModFuncs {
+		if isTestFile(p.Fset, fn.Pos()) {
+			continue
+		}
+		allInstrs(fn, func(i ssa.Instruction) {
+			cc := callCommon(i)
+			if cc == nil {
+				return
+			}
+			name := commonName(cc)
+			if !strings.HasPrefix(name, gor) {
+				return
+			}
+			m := strings.TrimPrefix(name, gor)
+			top := topFn(fn)
+			onAdapter := top.Signature.Recv() != nil && strings.HasSuffix(top.Signature.Recv().Type().String(), "pkg/websocket.Conn")
+			switch {
+			case dataWrite[m]:
+				_, isGo := i.(*ssa.Go)
+				ok := onAdapter && writeSide[top.Name()] && fn == top && !isGo
+				c.check(ok, rule, fnName(top)+"/"+m+"/single-writer", i.Pos(), "data frames are written only by the adapter's write side",
+					"a WebSocket data/close frame is written by "+fnName(fn)+", which is not the adapter's write side (Write/ReadFrom): the library allows one concurrent writer, and this call can run while the copy loop is inside Write (only Close and WriteControl are safe to call concurrently)")
+			case dataRead[m]:
+				_, isGo := i.(*ssa.Go)
+				ok := onAdapter && readSide[top.Name()] && fn == top && !isGo
+				c.check(ok, rule, fnName(top)+"/"+m+"/single-reader", i.Pos(), "data frames are read only by the adapter's read side",
+					"a WebSocket frame is read by "+fnName(fn)+", which is not the adapter's read side (Read/WriteTo): the library allows one concurrent reader")
+			}
+		})
+	}
 }
